@@ -393,12 +393,13 @@ def correspond(ctx, drivers):
                 except Exception as e:
                     res[preserve] = ('err', f'{type(e).__name__}: {str(e)[:120]}')
             opts = {'minimal': minimal, 'multiblend': multiblend, 'inc': inc}
-            reqs += [{'op': 'export', 'opts': opts, 'map': d0},
+            reqs += [{'op': 'text', 'opts': opts, 'map': d0},
+                     {'op': 'export', 'opts': opts, 'map': d0},
                      {'op': 'parse', 'preserve': True, 'tree': tree},
                      {'op': 'parse', 'preserve': False, 'tree': tree},
                      {'op': 'project', 'opts': opts, 'map': d0},
                      {'op': 'roundtrip', 'opts': opts, 'map': d0}]
-            meta.append((c, tree, res))
+            meta.append((c, tree, res, t1))
             ctx.case(c, nontrivial=bool(d0['ents'] or d0['spawn']['solids']), sample_every=41)
             ctx.count('correspond: maps')
             ctx.count('correspond: tree nodes', t1.count('\n'))
@@ -407,9 +408,19 @@ def correspond(ctx, drivers):
             break
     replies = drv.batch(reqs)
     it = iter(replies)
-    for c, tree, res in meta:
-        r_exp, r_pt, r_pf, r_proj, r_rt = next(it), next(it), next(it), next(it), next(it)
+    for c, tree, res, t1 in meta:
+        r_txt, r_exp, r_pt, r_pf, r_proj, r_rt = next(it), next(it), next(it), next(it), next(it), next(it)
         ctx.traces_vs_impl += 1
+        # the text itself, character for character
+        mt = ''.join(map(chr, r_txt.get('text', []))) if 'text' in r_txt else None
+        if mt != t1:
+            if mt is None:
+                where = str(r_txt)[:200]
+            else:
+                i = next((i for i, (a, b) in enumerate(zip(mt, t1)) if a != b), min(len(mt), len(t1)))
+                where = f'char {i}: impl {t1[max(0, i - 30):i + 30]!r} vs model {mt[max(0, i - 30):i + 30]!r}'
+            ctx.disagree(c, 'impl text', where, 'exportText: VMF.export() text vs model text (impl vs model)')
+        ctx.count('correspond: text chars', len(t1))
         if 'tree' not in r_exp:
             ctx.disagree(c, 'tree', r_exp, 'driver error in export')
             continue
